@@ -325,7 +325,7 @@ func main() {
 	}
 	cf.Side.Rule = fmt.Sprintf("in-process: Limit node, OrderSensitiveTransform with limit (with and without DeleteMax pruning) and batch.OutputPrinter with limit over generated valid changelogs "+
 		"(insert-only when noRetractionsPossible), n in 0..%d, exact tie; CLI: the built binary on SELECT a, b, c FROM f [ORDER BY 1-2 columns, ASC/DESC] LIMIT n for every n in 0..%d x "+
-		"{batch_table,csv,json,stream_native} x {top level, subquery, WITH} over generated JSON files (0..9 rows, duplicates, NULLs), stdout parsed per mode; "+
+		"{batch_table,csv,json,stream_native} x {top level, subquery, WITH} over generated JSON files (1..9 rows, duplicates, NULLs), stdout parsed per mode; "+
 		"non-trivial = at least 3 input rows with a duplicate and 0 < n < #rows; distinct by full case text", K, K)
 
 	// ---- in-process ----
@@ -428,7 +428,7 @@ func main() {
 	var jobs []*cliJob
 	for d := 0; d < nFiles; d++ {
 		r := rng.Fork()
-		nrows := r.Intn(10)
+		nrows := 1 + r.Intn(9) // an empty file has no columns to select: octosql rejects the query at typecheck time
 		if d == 0 {
 			nrows = 6
 		}
